@@ -42,7 +42,7 @@ Qed.
 Theorem c11_process_iff s fed cd link mb mn :
   process s fed cd link mb mn = ROk tt <->
   (is_altered s = false /\ cd = is_key s /\ link = is_link s /\ mb = is_blinding s /\ mn = is_nonce s
-   /\ values_agree (norm_values fed) (is_values s) = true).
+   /\ values_agree (holder_values fed) (is_values s) = true).
 Proof.
   unfold process. split.
   - intros H. apply guard_ok in H. bsplit H.
@@ -54,7 +54,7 @@ Qed.
 (* the honest flow goes through *)
 Theorem c11_honest_flow k o link b n values :
   io_key o = ik_id k -> set_eqb (keys (norm_values values)) (ik_attrs k) = true ->
-  values_agree (norm_values values) (norm_values values) = true ->
+  values_agree (holder_values values) (norm_values values) = true ->
   exists r s, make_request (ik_id k) o link b n = ROk r /\ issue k o r values = ROk s
               /\ process s values (ik_id k) link b n = ROk tt.
 Proof.
@@ -69,12 +69,12 @@ Theorem c11_processed_verifiable s fed cd link mb mn :
   process s fed cd link mb mn = ROk tt ->
   forall attrs revealed preds pos sp common,
     set_eqb attrs (keys (is_values s)) = true ->
-    cl_prove (source_of s) (norm_values fed) attrs revealed preds None link pos = ROk sp ->
+    cl_prove (source_of s) (holder_values fed) attrs revealed preds None link pos = ROk sp ->
     sub_ok common link pos (sp, cd, attrs, None) = true.
 Proof.
   intros H attrs revealed preds pos sp common Hattrs Hp. apply c11_process_iff in H as (Ha & Hcd & Hl & _ & _ & Hv).
   subst cd. change (is_key s) with (src_key (source_of s)).
-  apply (c04_sub_proof_verifies (source_of s) (norm_values fed) attrs revealed preds None link pos sp common None Hp); cbn; auto.
+  apply (c04_sub_proof_verifies (source_of s) (holder_values fed) attrs revealed preds None link pos sp common None Hp); cbn; auto.
 Qed.
 
 (* non-vacuity *)
@@ -83,6 +83,7 @@ Example c11_example :
   let o := {| io_key := 1; io_nonce := 10 |} in
   exists r s, make_request 1 o 7 3 4 = ROk r /\ issue k o r [("Name", "11"); ("Zip Code", "7")] = ROk s
               /\ process s [("Name", "11"); ("Zip Code", "7")] 1 7 3 4 = ROk tt
+              /\ process s [("Name", "11"); ("Zip Code", "7"); ("MASTER_secret", "999")] 1 7 3 4 = ROk tt
               /\ process s [("Name", "12"); ("Zip Code", "7")] 1 7 3 4 = RErr
               /\ process s [("Name", "11"); ("Zip Code", "7")] 1 8 3 4 = RErr
               /\ issue k {| io_key := 1; io_nonce := 11 |} r [("Name", "11"); ("Zip Code", "7")] = RErr
